@@ -47,6 +47,40 @@ func buildRequest(id uint16, opcode int, flagsExtra uint16, qnames []string, rec
 	return b
 }
 
+// buildVariedQuery builds a name query of an unusual but well-formed shape (shape 0 = plain): no question at
+// all, a scoped name, the node-status question type, broadcast / recursion bits, a stray additional record. The
+// expected answer to each shape is learnt from the quiescent server like any other request.
+func buildVariedQuery(id uint16, shape int, qnames []string, extraBits uint16) []byte {
+	p := &nbtns.NBTNSPacket{Header: nbtns.NBTNSHeader{TransactionID: id, Flags: extraBits}}
+	for i, q := range qnames {
+		nq := nbtns.NBTNSQuestion{Name: &nbtns.NetBIOSName{Name: q}, Type: 0x20, Class: 1}
+		switch shape {
+		case 2:
+			if i == 0 {
+				nq.Name.ScopeID = "corp.example"
+			}
+		case 3:
+			nq.Type = 0x21
+		}
+		p.Questions = append(p.Questions, nq)
+	}
+	switch shape {
+	case 1:
+		p.Questions = nil // a query with QDCOUNT 0
+	case 4:
+		p.Header.Flags |= 0x0110 // recursion desired + broadcast
+	case 5:
+		p.Additional = []nbtns.NBTNSResourceRecord{{Name: &nbtns.NetBIOSName{Name: "STRAYREC"}, Type: 0x20, Class: 1, TTL: 1, RDLength: 4, RData: []byte{192, 0, 2, 7}}}
+		p.Header.Additional = 1
+	}
+	p.Header.Questions = uint16(len(p.Questions))
+	b, err := p.Marshal()
+	if err != nil {
+		panic("harness: cannot marshal request: " + err.Error())
+	}
+	return b
+}
+
 type nbResp struct {
 	id      uint16
 	flags   uint16
